@@ -1,5 +1,336 @@
 package main
 
+// Table / constant extraction: composite literals, const blocks and switch tables of the
+// packages the properties depend on, evaluated syntactically and written as Gallina lists.
+
+import (
+	"fmt"
+	"go/ast"
+	"go/token"
+	"sort"
+	"strconv"
+	"strings"
+)
+
+// import alias -> package dir (only the repository's own packages are resolved)
+var pkgDirs = map[string]string{
+	"document": "pkg/document",
+	"patch":    "pkg/patch",
+	"jws":      "pkg/jws",
+	"docutil":  "pkg/docutil",
+}
+
+// third-party constants the tables mention (pinned by go.sum; read from the module cache would
+// be possible but these are protocol constants)
+var externalConsts = map[string]string{
+	"multihash.SHA2_256": "18",
+	"multihash.SHA2_512": "19",
+	"crypto.SHA256":      `"SHA256"`,
+	"crypto.SHA384":      `"SHA384"`,
+	"crypto.SHA512":      `"SHA512"`,
+}
+
+func findValueSpec(p *pkgSrc, name string) (ast.Expr, bool) {
+	for _, f := range p.files {
+		for _, d := range f.Decls {
+			gd, ok := d.(*ast.GenDecl)
+			if !ok || (gd.Tok != token.CONST && gd.Tok != token.VAR) {
+				continue
+			}
+			for _, s := range gd.Specs {
+				vs := s.(*ast.ValueSpec)
+				for i, n := range vs.Names {
+					if n.Name == name && i < len(vs.Values) {
+						return vs.Values[i], true
+					}
+				}
+			}
+		}
+	}
+	return nil, false
+}
+
+// evalConst evaluates an expression to a Go literal string ("..." or a number) or "" if unknown.
+func evalConst(pkg string, e ast.Expr) string {
+	switch x := e.(type) {
+	case *ast.BasicLit:
+		if x.Kind == token.STRING {
+			s, err := strconv.Unquote(x.Value)
+			if err != nil {
+				return ""
+			}
+			return strconv.Quote(s)
+		}
+		if x.Kind == token.CHAR {
+			s, err := strconv.Unquote(x.Value)
+			if err != nil || len(s) != 1 {
+				return ""
+			}
+			return strconv.Itoa(int(s[0]))
+		}
+		return x.Value
+	case *ast.Ident:
+		if x.Name == "true" || x.Name == "false" {
+			return x.Name
+		}
+		if v, ok := findValueSpec(loadPkg(pkg), x.Name); ok {
+			return evalConst(pkg, v)
+		}
+		return ""
+	case *ast.SelectorExpr:
+		if id, ok := x.X.(*ast.Ident); ok {
+			if v, ok := externalConsts[id.Name+"."+x.Sel.Name]; ok {
+				return v
+			}
+			if dir, ok := pkgDirs[id.Name]; ok {
+				if v, ok := findValueSpec(loadPkg(dir), x.Sel.Name); ok {
+					return evalConst(dir, v)
+				}
+			}
+		}
+		return ""
+	case *ast.CallExpr: // conversions such as Action("x") or document.KeyPurpose(p)
+		if len(x.Args) == 1 {
+			return evalConst(pkg, x.Args[0])
+		}
+	case *ast.ParenExpr:
+		return evalConst(pkg, x.X)
+	}
+	return ""
+}
+
+func coqLit(goLit string) string {
+	if strings.HasPrefix(goLit, `"`) {
+		s, _ := strconv.Unquote(goLit)
+		return coqString(s)
+	}
+	if goLit == "" {
+		return `"<unresolved>"`
+	}
+	return "(" + goLit + ")%Z"
+}
+
+func coqString(s string) string {
+	return `"` + strings.ReplaceAll(s, `"`, `""`) + `"`
+}
+
+// mapLiteral returns the (key, value) pairs of a package-level composite literal.
+func compositeLit(pkg, name string) *ast.CompositeLit {
+	v, ok := findValueSpec(loadPkg(pkg), name)
+	if !ok {
+		return nil
+	}
+	cl, _ := v.(*ast.CompositeLit)
+	return cl
+}
+
+func mapPairs(pkg, name string, valueAsIdent bool) ([][2]string, bool) {
+	cl := compositeLit(pkg, name)
+	if cl == nil {
+		return nil, false
+	}
+	var out [][2]string
+	for _, el := range cl.Elts {
+		kv, ok := el.(*ast.KeyValueExpr)
+		if !ok {
+			return nil, false
+		}
+		k := evalConst(pkg, kv.Key)
+		var v string
+		if valueAsIdent {
+			if id, ok := kv.Value.(*ast.Ident); ok {
+				v = strconv.Quote(id.Name)
+			}
+		} else {
+			v = evalConst(pkg, kv.Value)
+		}
+		out = append(out, [2]string{k, v})
+	}
+	sort.Slice(out, func(i, j int) bool { return out[i][0] < out[j][0] })
+	return out, true
+}
+
+func listElems(pkg, name string) ([]string, bool) {
+	cl := compositeLit(pkg, name)
+	if cl == nil {
+		return nil, false
+	}
+	var out []string
+	for _, el := range cl.Elts {
+		out = append(out, evalConst(pkg, el))
+	}
+	return out, true
+}
+
+func defKeys(b *strings.Builder, gname, pkg, name string) {
+	ps, ok := mapPairs(pkg, name, false)
+	if !ok {
+		fmt.Fprintf(b, "(* %s: map literal %s.%s not found *)\nDefinition %s_missing : unit := tt.\n", gname, pkg, name, gname)
+		return
+	}
+	items := make([]string, len(ps))
+	for i, p := range ps {
+		items[i] = coqLit(p[0])
+	}
+	fmt.Fprintf(b, "Definition %s : list string := [%s].\n", gname, strings.Join(items, "; "))
+}
+
+func defPairs(b *strings.Builder, gname, pkg, name string, valueAsIdent bool) {
+	ps, ok := mapPairs(pkg, name, valueAsIdent)
+	if !ok {
+		fmt.Fprintf(b, "(* %s: map literal %s.%s not found *)\nDefinition %s_missing : unit := tt.\n", gname, pkg, name, gname)
+		return
+	}
+	items := make([]string, len(ps))
+	for i, p := range ps {
+		items[i] = "(" + coqLit(p[0]) + ", " + coqLit(p[1]) + ")"
+	}
+	fmt.Fprintf(b, "Definition %s : list (string * string) := [%s].\n", gname, strings.Join(items, "; "))
+}
+
+func defConst(b *strings.Builder, gname, pkg, name string, isString bool) {
+	v, ok := findValueSpec(loadPkg(pkg), name)
+	if !ok {
+		fmt.Fprintf(b, "Definition %s_missing : unit := tt.\n", gname)
+		return
+	}
+	lit := evalConst(pkg, v)
+	ty := "Z"
+	if isString {
+		ty = "string"
+	}
+	fmt.Fprintf(b, "Definition %s : %s := %s.\n", gname, ty, coqLit(lit))
+}
+
+// regexpSource finds `name = regexp.MustCompile("...")`.
+func regexpSource(pkg, name string) string {
+	v, ok := findValueSpec(loadPkg(pkg), name)
+	if !ok {
+		return ""
+	}
+	ce, ok := v.(*ast.CallExpr)
+	if !ok || len(ce.Args) != 1 {
+		return ""
+	}
+	return evalConst(pkg, ce.Args[0])
+}
+
+// switchTable extracts `switch x { case K: ... }` of a function as (case constant, summary of
+// the body) pairs; summarise receives the case body.
+func switchTable(pkg, recv, fn string, summarise func(pkg string, body []ast.Stmt) string) ([][2]string, bool) {
+	fd := findFunc(loadPkg(pkg), recv, fn)
+	if fd == nil {
+		return nil, false
+	}
+	var out [][2]string
+	found := false
+	ast.Inspect(fd.Body, func(n ast.Node) bool {
+		sw, ok := n.(*ast.SwitchStmt)
+		if !ok || found {
+			return true
+		}
+		found = true
+		for _, c := range sw.Body.List {
+			cc := c.(*ast.CaseClause)
+			for _, e := range cc.List {
+				out = append(out, [2]string{evalConst(pkg, e), summarise(pkg, cc.Body)})
+			}
+		}
+		return false
+	})
+	sort.Slice(out, func(i, j int) bool { return out[i][0] < out[j][0] })
+	return out, found
+}
+
+// field values of the first composite literal / assignment found in a case body
+func fieldSummary(fields ...string) func(string, []ast.Stmt) string {
+	return func(pkg string, body []ast.Stmt) string {
+		vals := map[string]string{}
+		for _, s := range body {
+			ast.Inspect(s, func(n ast.Node) bool {
+				switch x := n.(type) {
+				case *ast.KeyValueExpr:
+					if id, ok := x.Key.(*ast.Ident); ok {
+						vals[id.Name] = evalConst(pkg, x.Value)
+					}
+				case *ast.AssignStmt:
+					if len(x.Lhs) == 1 && len(x.Rhs) == 1 {
+						if id, ok := x.Lhs[0].(*ast.Ident); ok {
+							vals[id.Name] = evalConst(pkg, x.Rhs[0])
+						}
+					}
+				}
+				return true
+			})
+		}
+		var parts []string
+		for _, f := range fields {
+			v := vals[f]
+			if strings.HasPrefix(v, `"`) {
+				v, _ = strconv.Unquote(v)
+			}
+			parts = append(parts, v)
+		}
+		return strconv.Quote(strings.Join(parts, "/"))
+	}
+}
+
 func genTables() string {
-	return "(* GENERATED by vtrans from /repo's current source. Do not edit. *)\n"
+	var b strings.Builder
+	b.WriteString("(* GENERATED by vtrans from /repo's current source. Do not edit. *)\n")
+	b.WriteString("From Coq Require Import ZArith String List.\nImport ListNotations.\nOpen Scope string_scope.\n\n")
+	pv := "pkg/versions/1_0/operationparser/patchvalidator"
+	defConst(&b, "gen_max_id_length", pv, "maxIDLength", false)
+	defConst(&b, "gen_max_service_type_length", pv, "maxServiceTypeLength", false)
+	fmt.Fprintf(&b, "Definition gen_id_regexp : string := %s.\n", coqLit(regexpSource(pv, "asciiRegex")))
+	defKeys(&b, "gen_allowed_purposes", pv, "allowedPurposes")
+	defKeys(&b, "gen_key_types_general", pv, "allowedKeyTypesGeneral")
+	defKeys(&b, "gen_key_types_verification", pv, "allowedKeyTypesVerification")
+	defKeys(&b, "gen_key_types_agreement", pv, "allowedKeyTypesAgreement")
+	defPairs(&b, "gen_allowed_key_types", pv, "allowedKeyTypes", true)
+	defPairs(&b, "gen_action_config", "pkg/patch", "actionConfig", false)
+	for _, c := range [][2]string{{"gen_doc_public_key", "PublicKeyProperty"}, {"gen_doc_service", "ServiceProperty"},
+		{"gen_doc_also_known_as", "AlsoKnownAs"}, {"gen_doc_id", "IDProperty"}, {"gen_replace_public_keys", "ReplacePublicKeyProperty"},
+		{"gen_replace_services", "ReplaceServiceProperty"}, {"gen_doc_context", "ContextProperty"}} {
+		defConst(&b, c[0], "pkg/document", c[1], true)
+	}
+	defConst(&b, "gen_namespace_delimiter", "pkg/docutil", "NamespaceDelimiter", true)
+	// curve tables
+	if t, ok := switchTable("pkg/jwsutil", "", "parseEllipticCurve", fieldSummary("keySize", "hash")); ok {
+		items := make([]string, len(t))
+		for i, p := range t {
+			items[i] = "(" + coqLit(p[0]) + ", " + coqLit(p[1]) + ")"
+		}
+		fmt.Fprintf(&b, "Definition gen_verify_curves : list (string * string) := [%s].\n", strings.Join(items, "; "))
+	} else {
+		b.WriteString("Definition gen_verify_curves_missing : unit := tt.\n")
+	}
+	if t, ok := switchTable("pkg/hashing", "", "GetHashFromMultihash", fieldSummary("h")); ok {
+		items := make([]string, len(t))
+		for i, p := range t {
+			items[i] = "(" + coqLit(p[0]) + ", " + coqLit(p[1]) + ")"
+		}
+		fmt.Fprintf(&b, "Definition gen_hash_codes : list (Z * string) := [%s].\n", strings.Join(items, "; "))
+	} else {
+		b.WriteString("Definition gen_hash_codes_missing : unit := tt.\n")
+	}
+	for _, nm := range [][2]string{{"gen_jcs_ascii_escapes", "asciiEscapes"}, {"gen_jcs_binary_escapes", "binaryEscapes"}} {
+		if l, ok := listElems("pkg/internal/jsoncanonicalizer", nm[1]); ok {
+			items := make([]string, len(l))
+			for i, v := range l {
+				items[i] = coqLit(v)
+			}
+			fmt.Fprintf(&b, "Definition %s : list Z := [%s].\n", nm[0], strings.Join(items, "; "))
+		} else {
+			fmt.Fprintf(&b, "Definition %s_missing : unit := tt.\n", nm[0])
+		}
+	}
+	if l, ok := listElems("pkg/internal/jsoncanonicalizer", "literals"); ok {
+		items := make([]string, len(l))
+		for i, v := range l {
+			items[i] = coqLit(v)
+		}
+		fmt.Fprintf(&b, "Definition gen_jcs_literals : list string := [%s].\n", strings.Join(items, "; "))
+	}
+	return b.String()
 }
